@@ -80,6 +80,11 @@ def hyps_contribution(flow, arg, thparam, nonthm_params, prop_expr):
         return None
     if path_of(e) == thparam + '.hyps':
         return 'whole'
+    # a sequence built from the premise as a whole and taken apart again: (th.hyps + (th.prop,)) mapped, then [:-1]
+    from ..seqshape import describe
+    d = describe(flow, e)
+    if d is not None and len(d) == 1 and d[0][0] == 'all' and d[0][1] == thparam + '.hyps' and all(v in names_in(elt) for v, elt in d[0][2]):
+        return 'map' if d[0][2] else 'whole'
     if isinstance(e, (ast.GeneratorExp, ast.ListComp)) and len(e.generators) == 1:
         g = e.generators[0]
         if path_of(g.iter) != thparam + '.hyps' or not isinstance(g.target, ast.Name):
@@ -557,10 +562,13 @@ def rule_k8(repo):
         return res
     # a loop over hypotheses *and* proposition that matches types (or calls subst) before the first result
     prepasses = []
+    k8flow = flow_of(func.node)
+    matchers = {g.name for g in func.nested.values() if any(isinstance(c, ast.Call) and call_attr(c) == 'match_incr' for c in ast.walk(g.node))}
     for it in cfg.nodes_of_kind('iter'):
-        paths = {path_of(x) for x in ast.walk(it.ast.iter) if isinstance(x, ast.Attribute)}
+        paths = {path_of(x) for x in ast.walk(k8flow.inline(it.ast.iter)) if isinstance(x, ast.Attribute)}
         if th + '.hyps' in paths and th + '.prop' in paths and any(
-                isinstance(c, ast.Call) and (call_attr(c) == 'match_incr' or (call_attr(c) == 'subst' and c.args and is_name(c.args[0], inst)))
+                isinstance(c, ast.Call) and (call_attr(c) == 'match_incr' or (call_attr(c) == 'subst' and c.args and is_name(c.args[0], inst)) or
+                                             (isinstance(c.func, ast.Name) and c.func.id in matchers))
                 for s in it.ast.body for c in ast.walk(s)):
             prepasses.append(it)
     first = min(uses, key=lambda n: n.lineno)
@@ -604,6 +612,7 @@ def rule_k10(repo):
     lifts = any(isinstance(c, ast.Call) and call_attr(c) in ('lift', 'incr_boundvars', 'shift') for c in ast.walk(subst.node))
     func = repo.func(THM, 'Thm.substitution')
     cfg = cfg_of(func.node)
+    kflow = flow_of(func.node)
     inst = func.params()[0]
     uses = [n for n in cfg.nodes if n.kind == 'stmt' and any(
         isinstance(c, ast.Call) and call_attr(c) == 'subst' and c.args and is_name(c.args[0], inst) for c in ast.walk(n.ast))]
@@ -622,12 +631,12 @@ def rule_k10(repo):
             gnode = t
             if isinstance(e, ast.Call) and call_name(e) == 'any' and e.args and isinstance(e.args[0], (ast.GeneratorExp, ast.ListComp)) and \
                     any(isinstance(c, ast.Call) and call_attr(c) == 'is_open' for c in ast.walk(e.args[0].elt)):
-                subj_iter = ' '.join(src(g.iter, 200) for g in e.args[0].generators)
+                subj_iter = ' '.join(src(kflow.inline(g.iter), 300) for g in e.args[0].generators)
             elif isinstance(e, ast.Call) and call_attr(e) == 'is_open' and isinstance(e.func.value, ast.Name):
                 for it in cfg.nodes_of_kind('iter'):
                     if e.func.value.id in {x.id for x in ast.walk(it.ast.target) if isinstance(x, ast.Name)} and \
                             it.ast.lineno <= t.lineno <= (it.ast.end_lineno or 0):
-                        subj_iter = src(it.ast.iter, 200)
+                        subj_iter = src(kflow.inline(it.ast.iter), 300)      # a local that names the list of values is read through
                         gnode = it          # the loop as a whole is what every path has to pass
             if subj_iter is None:
                 continue
@@ -768,6 +777,12 @@ def rule_k16(repo):
                     return flow.defs[e.id][0][1]
                 return e
             prop, hyps = value_of(call.args[0]), value_of(call.args[1])
+            # the whole sequent mapped at once and taken apart again: every term goes through the same call by construction
+            from ..seqshape import describe, element
+            dh, ep = describe(flow, call.args[1]), element(flow, call.args[0])
+            if dh is not None and ep is not None and len(dh) == 1 and dh[0][0] == 'all' and dh[0][1] == th[0] + '.hyps' and \
+                    src(ep[0], 40) == th[0] + '.prop' and dh[0][2] and [src(m[1], 80) for m in dh[0][2]] == [src(m[1], 80) for m in ep[1]]:
+                continue
             if not (isinstance(prop, ast.Call) and isinstance(prop.func, ast.Attribute) and src(prop.func.value, 40) == th[0] + '.prop'):
                 problems.append('line %d: the conclusion is not `%s.prop.<op>(..)`' % (r.lineno, th[0]))
                 continue
